@@ -140,3 +140,14 @@ MUTANTS["C11"] = [
     ("collapse-pair-off-by-one", "annet/annlib/lib.py", "            res.append([row[0], row[0]])\n            res.append([row[1], row[1]])", "            res.extend([v, v] for v in range(row[0], row[1]))"),
     ("huawei-expand-to-exclusive", "annet/annlib/lib.py", "            expanded = expanded.union(range(left + 1, right))", "            expanded = expanded.union(range(left + 2, right))"),
 ]
+
+MUTANTS["C13"] = [
+    ("absent-keys-not-deleted", "annet/annlib/jsontools.py", "            if isinstance(doc, dict) and isinstance(part, str):\n                doc.pop(part, None)", "            if isinstance(doc, dict) and isinstance(part, str) and len(to_delete) < 2:\n                doc.pop(part, None)"),
+    ("shallow-copy-of-old", "annet/annlib/jsontools.py", "    full_new_config = copy.deepcopy(old)", "    full_new_config = copy.copy(old)"),
+    ("filter-adds-siblings", "annet/annlib/jsontools.py", '            patch = jsonpatch.JsonPatch([{"op": "add", "path": pointer.path, "value": part}])', '            patch = jsonpatch.JsonPatch([{"op": "add", "path": jsonpointer.JsonPointer.from_parts(pointer.get_parts()[:1]).path if len(pointer.get_parts()) > 2 else pointer.path, "value": content[pointer.get_parts()[0]] if len(pointer.get_parts()) > 2 else part}])'),
+    ("pointers-unescaped-again", "annet/annlib/jsontools.py", "        ret.append(jsonpointer.JsonPointer.from_parts(matched_parts))", '        ret.append(jsonpointer.JsonPointer("/" + "/".join(matched_parts)))'),
+    ("patch-sorted-again", "annet/annlib/jsontools.py", "    return jsonpatch.make_patch(old, new).patch", '    return sorted(jsonpatch.make_patch(old, new).patch, key=lambda o: o["path"])'),
+    ("exact-key-shortcut", "annet/annlib/jsontools.py", "                keys_and_docs = [\n                    (key, doc[key]) for key in doc.keys()\n                    if fnmatch.fnmatchcase(key, part)\n                ]", "                keys_and_docs = [(part, doc[part])] if part in doc else [\n                    (key, doc[key]) for key in doc.keys()\n                    if fnmatch.fnmatchcase(key, part)\n                ]"),
+    ("make_patch-eq-shortcut", "annet/annlib/jsontools.py", '    """Generate a JSON patch by comparing the old document with the new one."""\n', '    """Generate a JSON patch by comparing the old document with the new one."""\n    if old == new:\n        return []\n'),
+    ("chain-uses-original-old", "annet/generators/result.py", "            previous_config: Dict[str, Any] = files[filepath][0]", "            previous_config: Dict[str, Any] = old_files.get(filepath) or {}"),
+]
